@@ -30,7 +30,7 @@ fn merge(l: &packed::HeaderDigest, r: &packed::HeaderDigest) -> packed::HeaderDi
 
 /// the specification, structurally: nodes in post order and the bagged root
 /// for the first `k` leaves, for every k
-fn expected(headers: &[HeaderView]) -> (Vec<packed::HeaderDigest>, Vec<packed::HeaderDigest>) {
+pub(crate) fn expected(headers: &[HeaderView]) -> (Vec<packed::HeaderDigest>, Vec<packed::HeaderDigest>) {
     let mut nodes: Vec<packed::HeaderDigest> = vec![];
     let mut peaks: Vec<(u32, packed::HeaderDigest)> = vec![]; // left to right
     let mut roots = vec![];
@@ -83,6 +83,7 @@ pub fn run(seed: u64, thorough: bool, out_dir: &std::path::Path, scratch: &std::
             ..Default::default()
         };
         let mut frng = rng.fork();
+        let mut lrng = Rng(frng.0 ^ 0x11c);
         let r = std::panic::catch_unwind(std::panic::AssertUnwindSafe(|| {
             let mut h = Hist::new(cfg.clone(), scratch.join(format!("n{hi}")), false);
             let mut steps: Vec<(u64, Vec<(u64, u64, u128)>, Vec<(u64, u64, u128)>, Vec<(u64, u64, u128)>)> = vec![];
@@ -159,6 +160,17 @@ pub fn run(seed: u64, thorough: bool, out_dir: &std::path::Path, scratch: &std::
                                 *stats.entry("proofs_checked".into()).or_default() += 1;
                             }
                             Err(e) => viol.push(json!({"what": format!("gen_proof failed: {e}"), "detail": {"history": h.jops, "leaves": leaves}})),
+                        }
+                    }
+                    // 4b. roots and membership proofs as SERVED to light clients (light-client protocol server):
+                    // anchored at the tip, at older main-chain blocks, at blocks of abandoned branches, at unknown hashes
+                    {
+                        let on_main: std::collections::HashSet<Byte32> = main.iter().map(|b| b.hash()).collect();
+                        let stale: Vec<BlockView> = h.blocks.iter().filter(|b| !on_main.contains(&b.hash())).cloned().collect();
+                        for mut v in crate::lightclient::probe(node, &main, &stale, &mut lrng, &mut stats) {
+                            v["what"] = json!(format!("after a {}: {}", c.what, v["what"].as_str().unwrap_or("")));
+                            v["detail"]["history"] = json!(h.jops);
+                            viol.push(v);
                         }
                     }
                     // 5. block filters: built lazily, sometimes only every other change
